@@ -128,10 +128,20 @@ def keyword_from_hash(kw_hash: int, name: str, ns: str | None = None) -> Keyword
 
     with _LOCK:
         found = _INTERN.val_at(kw_hash)
-        if found:
+        if found is not None and found._name == name and found._ns == ns:
+            return found
+
+        # `kw_hash` may have been computed in another process: compiled code embeds
+        # the compile-time hash, and string hashes differ between interpreter runs
+        # (PYTHONHASHSEED), so bytecode loaded from a cache file carries hashes which
+        # mean nothing here. Always intern under the hash this process computes, or
+        # the same keyword would be interned twice as two non-identical objects.
+        real_hash = hash_kw(name, ns)
+        found = _INTERN.val_at(real_hash)
+        if found is not None and found._name == name and found._ns == ns:
             return found
         kw = Keyword(name, ns=ns)
-        _INTERN = _INTERN.assoc(kw_hash, kw)
+        _INTERN = _INTERN.assoc(real_hash, kw)
         return kw
 
 
